@@ -63,6 +63,8 @@ DELIVERABLES (write them, then stop):
 Leave the worktree with your change applied (uncommitted). Remove your build directories and harness binaries before finishing to save disk space. Keep your final answer to a few lines.
 """
 
+SEED2 = SEED.replace("It should look like a plausible mistake", "Prefer a kind of mistake OTHER than a changed comparison operator or a changed constant - e.g. state that survives between two calls, two statements in the wrong order, a helper used for one more purpose than it was written for, an assumption about the caller that one caller does not meet, a type that is too narrow, a missing case in a chain, an early return that skips a clean-up, a copy where a reference was meant (or the reverse). It should look like a plausible mistake")
+
 MODERATE = BENIGN.replace("Touch at least four different places of the anchored code and be bold about the *shape* of the code, but", "Keep it to what a maintainer would do in one sitting - three to five places, each a recognisable clean-up of the existing code rather than a rewrite -, and remember that")
 
 for spec in sys.argv[3:]:
@@ -76,9 +78,9 @@ for spec in sys.argv[3:]:
         ms = [p["anchors"]["mechanism"][int(i)] for i in mech.split(",")]
         focus = "\nFOCUS (so that different people cover different code): put your change into this part of the anchored code, or code that directly serves it: %s.\n" % \
             "; or ".join("%s (%s)" % (m["name"], m["where"]) for m in ms)
-    txt = HEAD.format(what="seeded defect" if kind == "seed" else "behaviour-preserving refactoring", wt=wt, id=pid, title=p["title"],
+    txt = HEAD.format(what="seeded defect" if kind in ("seed", "seed2") else "behaviour-preserving refactoring", wt=wt, id=pid, title=p["title"],
                       statement=p["statement"], quant=p["quantifier"]["text"], why=p["why_tests_cant"], anchors=anchors)
-    txt += (SEED if kind == "seed" else (MODERATE if kind == "moderate" else BENIGN)).format(wt=wt, id=pid, focus=focus)
+    txt += (SEED if kind == "seed" else (SEED2 if kind == "seed2" else (MODERATE if kind == "moderate" else BENIGN))).format(wt=wt, id=pid, focus=focus)
     open(wt + ".prompt.txt", "w").write(txt)
     if not os.path.isdir(wt):
         subprocess.check_call(["git", "-C", "/repo", "worktree", "add", "-q", "--detach", wt, "HEAD"])
